@@ -2305,6 +2305,13 @@ XPathProcessorImpl::RelativeLocationPath()
     {
         nextToken();
 
+        // Step() lets a right parenthesis pass, but a step has
+        // to follow a '/' ("(b/)").
+        if (tokenIs(XalanUnicode::charRightParenthesis) == true)
+        {
+            error(XalanMessages::ExpectedNodeTest);
+        }
+
         Step();
     }
 }
